@@ -132,3 +132,27 @@ pub mod linker_script {
         crate::expression_eval::verif_eval_const(&e).map_err(|_| "E")
     }
 }
+
+pub mod symbol_db {
+    use crate::symbol_db::SymbolId;
+    use crate::symbol_db::SymbolPrioritySelector;
+    use crate::symbol_db::SymbolStrength;
+
+    /// Feeds candidates (in order) to `SymbolPrioritySelector` and returns the index of the best.
+    /// Each candidate is `(code, size)`: 0 = undefined / not loaded, 1 = weak, 2 = GNU unique,
+    /// 3 = strong, 4 = common of `size` bytes.
+    pub fn select(candidates: &[(u8, u64)]) -> Option<usize> {
+        let mut selector = SymbolPrioritySelector::new();
+        for (i, (code, size)) in candidates.iter().enumerate() {
+            let strength = match code {
+                0 => SymbolStrength::Undefined,
+                1 => SymbolStrength::Weak,
+                2 => SymbolStrength::GnuUnique,
+                3 => SymbolStrength::Strong,
+                _ => SymbolStrength::Common(*size),
+            };
+            selector.consider(SymbolId::from_usize(i + 1), strength);
+        }
+        selector.best().map(|id| id.as_usize() - 1)
+    }
+}
